@@ -493,3 +493,25 @@ Fixpoint run (c : cfg) (s : st) (ms : list msg) : res (st * list bool) :=
 
 (* the bytes a user can save for transfer number i (apply_command "save" with ctx.save.idx = i) *)
 Definition saved_bytes (s : st) (i : nat) : option (list N) := lookup_nat i (s_completed s).
+
+(* --- fn apply_command, command "save" (reached through PluginState.apply_command, e.g. by the remote plugin_cmd):
+   `File::create(save_as).and_then(|f| f.write_all(data))` for the data of transfer number i.
+   File-system interface: File::create TRUNCATES, so a successful save makes the WHOLE content of the path the
+   data ([fs_write] replaces the binding); [creatable] is the oracle for "File::create + write_all succeed on this
+   path" (false: the path is a directory, its directory is missing, no permission, ...), and a refused create
+   changes nothing.  Unknown index (nothing handed over for this transfer): false, nothing touched. *)
+Fixpoint remove_path (p : list N) (fs : list (list N * list N)) : list (list N * list N) :=
+  match fs with
+  | [] => []
+  | (q, d) :: r => if bytes_eqb p q then remove_path p r else (q, d) :: remove_path p r
+  end.
+Definition fs_write (p d : list N) (fs : list (list N * list N)) : list (list N * list N) :=
+  (p, d) :: remove_path p fs.
+Definition save_cmd (creatable : bool) (s : st) (i : nat) (p : list N) : st * bool :=
+  match saved_bytes s i with
+  | None => (s, false)
+  | Some d =>
+      if creatable
+      then (mkSt (s_transfers s) (s_idx s) (s_completed s) (fs_write p d (s_fs s)) (s_gen s) (s_pub s), true)
+      else (s, false)
+  end.
